@@ -150,10 +150,10 @@ func doDump(P *Program, what string) {
 					return
 				}
 				m := bigMethod(c)
-				if m == "" || !bigMutators[m] || len(c.Call.Args) == 0 {
+				if m == "" || !bigMutators[m] || len(callArgs(c)) == 0 {
 					return
 				}
-				site := siteOf(c.Call.Args[0])
+				site := siteOf(callArgs(c)[0])
 				switch x := site.(type) {
 				case *ssa.Alloc:
 					return
@@ -162,9 +162,11 @@ func doDump(P *Program, what string) {
 						return
 					}
 				}
-				fmt.Printf("%-60s %s.%s   [%T] @%s\n", FuncKey(fn), desc(c.Call.Args[0]), m, site, P.Pos(c.Pos()))
+				fmt.Printf("%-60s %s.%s   [%T] @%s\n", FuncKey(fn), desc(callArgs(c)[0]), m, site, P.Pos(c.Pos()))
 			})
 		}
+	case what == "headfields":
+		dumpHeadFields(P)
 	case what == "rejtable":
 		// prints the reasons of all verification trees in the format of rejections_table.txt (for review, not used at run time)
 		var names []string
